@@ -38,14 +38,22 @@ def contRoot (fuel : Nat) (w : World) (c : Cont) : String :=
   | .map _ => "?multi-slab-inlined"
 end
 
-/-- all stand-alone slabs of a container (id ↦ dump), pre-order -/
+/-- all stand-alone slabs of a container (id ↦ dump), pre-order.  An INLINED map has no slab of its
+    own but still owns the external collision-group slabs of its elements (audit a5, F1); the
+    containers nested in it are listed by their own entries of `World.conts`. -/
 def contSlabs (w : World) (c : Cont) : List (SlabID × String) :=
   let re := elemW (w.conts.length + 2) w
   match c with
   | .arr a =>
     if a.isInlined then [] else
     (ATree.slabIds a.d a.root).zip (Dump.treeR re a.ty a.d a.root)
-  | .map m => if m.isInlined then [] else Dump.mtreeR re m m.d m.root
+  | .map m =>
+    if m.isInlined then
+      match m with
+      | ⟨0, (s : MDataSlab 3), ty, cnt, seed⟩ =>
+        (Dump.mdataSlabR re (⟨0, s, ty, cnt, seed⟩ : OMap 3) s).2
+      | _ => []
+    else Dump.mtreeR re m m.d m.root
 
 end WDump
 
@@ -105,6 +113,25 @@ def werr : WErr → String
   | .outOfFuel => "MODEL:out-of-fuel"
 
 def renderOld (s : WState) (w : World) (e : Elem) : String := WDump.elemW (w.conts.length + 2) w e
+
+/-- one token of an `HST` line (handle bookkeeping of the implementation, hooks
+    `VerifArrayHasParentUpdater` / `VerifMapHasParentUpdater` / `VerifArrayMutableElementIndex`):
+    `<h>:<parentUpdater set>[:<mutableElementIndex, sorted by rendered value ID>]`, rendered from
+    the model's `hinfo` / `mutIdx` for the handle number the implementation's token names -/
+def hstToken (s : WState) (tok : String) : String :=
+  let hs := (tok.splitOn ":").headD ""
+  match hs.toNat?.bind (AList.find? s.handles) with
+  | none => s!"{hs}:?unknown-handle"
+  | some vid =>
+    match s.w.cont? vid with
+    | none => s!"{hs}:?no-container"
+    | some c =>
+      let u := if (AList.find? s.w.hinfo vid).isSome then "1" else "0"
+      match c with
+      | .map _ => s!"{hs}:{u}"
+      | .arr _ =>
+        let es := ((s.w.idxOf vid).map (fun e => (e.1.render, e.2))).mergeSort (fun a b => !(b.1 < a.1))
+        s!"{hs}:{u}:" ++ ",".intercalate (es.map (fun e => s!"{e.1}={e.2}"))
 
 def applyOp (s : WState) (name : String) (fs : List (String × String)) (lineNo : Nat) : WState :=
   let s := { s with rep := { s.rep with ops := s.rep.ops + 1 } }
@@ -211,6 +238,12 @@ def stepLine (s : WState) (line : String) (lineNo : Nat) : WState :=
       let s := { s with rep := { s.rep with compared := s.rep.compared + 1 } }
       if mine == theirs then s
       else s.note s!"line {lineNo}: FULL differs\n  model: {mine}\n  impl : {theirs}"
+  | "HST" :: rest =>
+    let mine := " ".intercalate (rest.map s.hstToken)
+    let theirs := " ".intercalate rest
+    let s := { s with rep := { s.rep with compared := s.rep.compared + 1 } }
+    if mine == theirs then s
+    else s.note s!"line {lineNo}: HST (parent callbacks / mutableElementIndex) differs\n  model: {mine}\n  impl : {theirs}"
   | "COMMIT" :: _ => { s with pending := ["OBS ok"] }
   | "REOPEN" :: _ => { s with w := s.w.reopen }
   | "FORGET" :: rest =>
